@@ -1401,8 +1401,8 @@ private theorem table_maint_dcOk (rm : List Nat) (ns rc : List (Nat × Node)) (t
 per-table maintenance run or skipped) -/
 private theorem info_maint_lift (Pold Pnew : Table → Prop) (rm : List Nat) (ns rc : List (Nat × Node))
     (hempty : Pold Table.empty) (hm : ∀ tbl, Pold tbl → Pnew (tbl.maintenance rm ns rc))
-    (hskip : rm = [] → rc = [] → ∀ tbl, Pold tbl → Pnew tbl)
-    (inf : Info) (h : ∀ e ∈ inf.tables, Pold e.2) (kss : List (String × Bool × List String)) :
+    (inf : Info) (hskip : rm = [] → rc = [] → inf.hasUnknown = false → ∀ tbl, Pold tbl → Pnew tbl)
+    (h : ∀ e ∈ inf.tables, Pold e.2) (kss : List (String × Bool × List String)) :
     ∀ e ∈ (inf.maintenance kss rm ns rc).tables, Pnew e.2 := by
   have inner : ∀ (ksn : String) (tbs : List String) (acc : List ((String × String) × Table)),
       (∀ e ∈ acc, Pold e.2) →
@@ -1457,8 +1457,9 @@ private theorem info_maint_lift (Pold Pnew : Table → Prop) (rm : List Nat) (ns
     simp only [Bool.or_eq_true, Bool.not_eq_true', not_or, Bool.not_eq_false] at hcond
     have hr : rm = [] := List.isEmpty_iff.mp (by simpa using hcond.1.1)
     have hc : rc = [] := List.isEmpty_iff.mp (by simpa using hcond.1.2)
+    have hu : inf.hasUnknown = false := by simpa using hcond.2
     intro e he
-    exact hskip hr hc e.2 (h2 e he)
+    exact hskip hr hc hu e.2 (h2 e he)
 
 private theorem recreated_cons (k0 : Nat) (v : KNode) (old new : Known) :
     recreatedNodes ((k0, v) :: old) new =
@@ -1514,7 +1515,7 @@ private theorem handed (old new : Known) (hk : KeyOk (nodesOf new)) :
           | some kn =>
             by_cases hb : (kn.node != v.node) = true
             · simp only [hb, if_true, alGet, hk0, if_false]; exact r
-            · simp only [hb, if_false]; exact r
+            · simp only [hb]; exact r
   · intro id n hg
     rw [alGet_nodesOf]
     have hm := alGet_mem _ _ _ hg
@@ -1596,20 +1597,22 @@ theorem stateOk_refresh (cs : CState) (h : StateOk cs) (peers : List Peer) (kss 
       (fun tbl => ∀ t ∈ tbl.tablets, Current (nodesOf (newTopology cs.known cs.gen peers).1) t)
       _ _ _ (by intro t ht'; simp [Table.empty] at ht')
       (fun tbl hp => table_maint_current H tbl hp)
+      cs.info
       (by
-        intro hr hc tbl hp u hu
+        intro hr hc _ tbl hp u hu
         have hs := current_after_swap H u (fun p hpp => Or.inr (hp u hu p hpp)) (by rw [hr]; exact touchesRemoved_nil u)
         rw [hc, updateStale_nil] at hs
         exact hs)
-      cs.info (fun e he t ht' => (ht e he t ht').1) kss e he
+      (fun e he t ht' => (ht e he t ht').1) kss e he
     exact this t htm
   · have := info_maint_lift (fun tbl => ∀ t ∈ tbl.tablets, DcOk t) (fun tbl => ∀ t ∈ tbl.tablets, DcOk t)
       (removedNodes cs.known (newTopology cs.known cs.gen peers).1) (nodesOf (newTopology cs.known cs.gen peers).1)
       (recreatedNodes cs.known (newTopology cs.known cs.gen peers).1)
       (by intro t ht'; simp [Table.empty] at ht')
       (fun tbl hp => table_maint_dcOk _ _ _ tbl hp)
-      (fun _ _ tbl hp => hp)
-      cs.info (fun e he t ht' => (ht e he t ht').2) kss e he
+      cs.info
+      (fun _ _ _ tbl hp => hp)
+      (fun e he t ht' => (ht e he t ht').2) kss e he
     exact this t htm
 
 /-- learning a tablet (`update_tablets`) keeps the state invariant -/
@@ -1825,5 +1828,677 @@ example : removedNodes cs0.known cs1.known = [2] ∧ (recreatedNodes cs0.known c
       = [[(0, 5, [(1, 0), (3, 4)])]] := by decide
 
 end Refresh
+
+/-! ### every table of the `TabletsInfo` is the run of its own sub-history (the table-level theorems lifted) -/
+
+section Lift
+open ScyllaVerif.TabletsRefresh
+
+/-- No tablet of the table still waits for an unknown replica. -/
+def AllResolved (tbl : Table) : Prop := ∀ t ∈ tbl.tablets, t.failed = none
+
+/-- The flags of the tablet map are honest: a cleared `has_unknown_replicas` (of the whole map, of a table) means
+that no tablet (of the map, of the table) has an unresolved replica.  This is what lets `perform_maintenance`
+skip the per-table pass. -/
+structure FlagsHonest (inf : Info) : Prop where
+  tables : ∀ e ∈ inf.tables, FlagInv e.2
+  whole : inf.hasUnknown = false → ∀ e ∈ inf.tables, AllResolved e.2
+
+theorem flags_honest_empty : FlagsHonest Info.empty :=
+  ⟨by intro e he; simp [Info.empty] at he, by intro _ e he; simp [Info.empty] at he⟩
+
+private theorem addTablet_mem (tbl : Table) (new : Tablet) :
+    ∀ t ∈ (tbl.addTablet new).1.tablets, t = new ∨ t ∈ tbl.tablets := by
+  intro t ht
+  unfold Table.addTablet at ht
+  cases h : addTabletList tbl.tablets new with
+  | none => rw [h] at ht; exact Or.inr ht
+  | some l =>
+    rw [h] at ht
+    simp only [] at ht
+    unfold addTabletList at h
+    simp only [] at h
+    split at h
+    · cases h
+      rcases List.mem_append.mp ht with hm | hm
+      · exact Or.inr (List.mem_of_mem_take hm)
+      · rcases List.mem_cons.mp hm with rfl | hm
+        · exact Or.inl rfl
+        · exact Or.inr (List.mem_of_mem_drop hm)
+    · cases h
+
+private theorem addTablet_flag (tbl : Table) (new : Tablet) :
+    (tbl.addTablet new).1.hasUnknown = (tbl.hasUnknown || new.failed.isSome) := by
+  unfold Table.addTablet
+  cases addTabletList tbl.tablets new <;> rfl
+
+private theorem flagInv_addTablet {tbl : Table} (h : FlagInv tbl) (new : Tablet) : FlagInv (tbl.addTablet new).1 := by
+  intro hf t ht
+  rw [addTablet_flag] at hf
+  simp only [Bool.or_eq_false_iff] at hf
+  rcases addTablet_mem tbl new t ht with rfl | hm
+  · cases hn : t.failed with
+    | none => rfl
+    | some r => rw [hn] at hf; simp at hf
+  · exact h hf.1 t hm
+
+private theorem flagInv_empty : FlagInv Table.empty := by
+  intro _ t ht; simp [Table.empty] at ht
+
+/-- **Learning a tablet keeps the flags honest** (a tablet with an unknown replica raises both flags). -/
+theorem learn_keeps_flags_honest {inf : Info} (h : FlagsHonest inf) (spec : String × String) (t : Tablet) :
+    FlagsHonest (inf.addTablet spec t).1 := by
+  have hcur : FlagInv ((alGet spec inf.tables).getD Table.empty) := by
+    cases hg : alGet spec inf.tables with
+    | none => exact flagInv_empty
+    | some c => exact h.tables _ (alGet_mem _ _ _ hg)
+  have hshape : (inf.addTablet spec t).1 =
+      ⟨alSet spec (((alGet spec inf.tables).getD Table.empty).addTablet t).1 inf.tables,
+        inf.hasUnknown || t.failed.isSome⟩ := rfl
+  rw [hshape]
+  refine ⟨?_, ?_⟩
+  · intro e he
+    rcases mem_alSet _ _ _ e he with rfl | hm
+    · exact flagInv_addTablet hcur t
+    · exact h.tables e hm
+  · intro hf e he
+    simp only [Bool.or_eq_false_iff] at hf
+    rcases mem_alSet _ _ _ e he with rfl | hm
+    · intro u hu
+      rcases addTablet_mem _ t u hu with rfl | hm
+      · cases hn : u.failed with
+        | none => rfl
+        | some r => rw [hn] at hf; simp at hf
+      · cases hg : alGet spec inf.tables with
+        | none => rw [hg] at hm; simp [Table.empty] at hm
+        | some c =>
+          rw [hg] at hm
+          exact h.whole hf.1 _ (alGet_mem _ _ _ hg) u hm
+    · exact h.whole hf.1 e hm
+
+/-- **After `TabletsInfo::perform_maintenance` no tablet has a truncated replica list** and both flags are
+cleared honestly — also when nothing was removed or re-created, because then `has_unknown_replicas` alone opens
+the gate. -/
+theorem refresh_resolves_all {inf : Info} (h : FlagsHonest inf) (kss : List (String × Bool × List String))
+    (rm : List Nat) (ns rc : List (Nat × Node)) :
+    (∀ e ∈ (inf.maintenance kss rm ns rc).tables, AllResolved e.2) ∧ FlagsHonest (inf.maintenance kss rm ns rc) := by
+  have key : ∀ e ∈ (inf.maintenance kss rm ns rc).tables, AllResolved e.2 :=
+    info_maint_lift (fun tbl => FlagInv tbl ∧ (inf.hasUnknown = false → AllResolved tbl)) AllResolved rm ns rc
+      ⟨flagInv_empty, fun _ t ht => by simp [Table.empty] at ht⟩
+      (by
+        intro tbl hp t ht
+        rw [(maintenance_eq_filterMap tbl hp.1 rm ns rc).1] at ht
+        obtain ⟨u, _, hu⟩ := List.mem_filterMap.mp ht
+        exact maintTablet_resolved hu)
+      inf (fun _ _ hu tbl hp => hp.2 hu)
+      (fun e he => ⟨h.tables e he, fun hu => h.whole hu e he⟩) kss
+  exact ⟨key, ⟨fun e he _ => key e he, fun _ => key⟩⟩
+
+/-- **Gate closed ⇒ nothing to do**: with nothing removed, nothing re-created and every tablet resolved (what an
+honest, cleared flag says), the per-table pass that `perform_maintenance` skips would not have changed the tablets. -/
+theorem table_pass_noop (tbl : Table) (h : AllResolved tbl) (ns : List (Nat × Node)) :
+    (tbl.maintenance [] ns []).tablets = tbl.tablets := by
+  have hflag : FlagInv tbl := fun _ => h
+  rw [(maintenance_eq_filterMap tbl hflag [] ns []).1]
+  have : tbl.tablets.filterMap (maintTablet [] ns []) = tbl.tablets.filterMap some := by
+    apply filterMap_congr'
+    intro t ht
+    simp [maintTablet, reResolve, h t ht, touchesRemoved_nil, updateStale_nil]
+  rw [this, List.filterMap_some]
+
+/-! the three things `perform_maintenance` does to the table list, by key -/
+
+private theorem alGet_append_single {κ β : Type} [DecidableEq κ] (k k' : κ) (v : β) (l : List (κ × β)) :
+    alGet k (l ++ [(k', v)]) = match alGet k l with
+      | some x => some x
+      | none => if k' = k then some v else none := by
+  induction l with
+  | nil => simp [alGet]
+  | cons e l ih =>
+    obtain ⟨k0, v0⟩ := e
+    simp only [List.cons_append, alGet]
+    by_cases h : k0 = k
+    · simp [h]
+    · simp only [h, if_false]; exact ih
+
+private theorem alGet_filter_key {κ β : Type} [DecidableEq κ] (q : κ → Bool) (k : κ) (l : List (κ × β)) :
+    alGet k (l.filter (fun e => q e.1)) = if q k then alGet k l else none := by
+  induction l with
+  | nil => simp [alGet]
+  | cons e l ih =>
+    obtain ⟨k0, v0⟩ := e
+    by_cases h : k0 = k
+    · subst h
+      cases hq : q k0 <;> simp [alGet, hq, ih]
+    · cases hq : q k0 <;> simp [alGet, hq, h, ih]
+
+private theorem alGet_map_val {κ β γ : Type} [DecidableEq κ] (f : β → γ) (k : κ) (l : List (κ × β)) :
+    alGet k (l.map (fun e => (e.1, f e.2))) = (alGet k l).map f := by
+  induction l with
+  | nil => rfl
+  | cons e l ih =>
+    obtain ⟨k0, v0⟩ := e
+    simp only [List.map_cons, alGet]
+    split
+    · rfl
+    · exact ih
+
+/-- is the table still a table of a tablet keyspace? -/
+def keptBy (kss : List (String × Bool × List String)) (spec : String × String) : Bool :=
+  match alGet spec.1 kss with
+  | none => false
+  | some (tabletBased, tables) => tabletBased && tables.contains spec.2
+
+def addEntry (ksn : String) (acc : List ((String × String) × Table)) (tb : String) : List ((String × String) × Table) :=
+  match alGet (ksn, tb) acc with
+  | some _ => acc
+  | none => acc ++ [((ksn, tb), Table.empty)]
+
+def addKs (acc : List ((String × String) × Table)) (ks : String × Bool × List String) : List ((String × String) × Table) :=
+  if ks.2.1 then ks.2.2.foldl (addEntry ks.1) acc else acc
+
+/-- `TabletsInfo::perform_maintenance`, with its three phases named -/
+theorem maintenance_unfold (inf : Info) (kss : List (String × Bool × List String)) (rm : List Nat)
+    (ns rc : List (Nat × Node)) :
+    inf.maintenance kss rm ns rc =
+      ⟨if !rm.isEmpty || !rc.isEmpty || inf.hasUnknown then
+          (kss.foldl addKs (inf.tables.filter (fun e => keptBy kss e.1))).map (fun e => (e.1, e.2.maintenance rm ns rc))
+        else kss.foldl addKs (inf.tables.filter (fun e => keptBy kss e.1)), false⟩ := rfl
+
+private theorem alGet_addEntry_some (spec : String × String) (ksn : String) (acc : List ((String × String) × Table))
+    (tb : String) (x : Table) (h : alGet spec acc = some x) : alGet spec (addEntry ksn acc tb) = some x := by
+  unfold addEntry
+  split
+  · exact h
+  · rw [alGet_append_single, h]
+
+private theorem alGet_addEntry_none (spec : String × String) (ksn : String) (acc : List ((String × String) × Table))
+    (tb : String) (h : alGet spec acc = none) :
+    alGet spec (addEntry ksn acc tb) = if (ksn, tb) = spec then some Table.empty else none := by
+  unfold addEntry
+  split
+  · rename_i x hx
+    have : ¬ (ksn, tb) = spec := by intro e; rw [e, h] at hx; cases hx
+    simp [this, h]
+  · rw [alGet_append_single, h]
+
+private theorem alGet_addEntries_some (spec : String × String) (ksn : String) (tbs : List String) :
+    ∀ (acc : List ((String × String) × Table)) (x : Table), alGet spec acc = some x →
+      alGet spec (tbs.foldl (addEntry ksn) acc) = some x := by
+  induction tbs with
+  | nil => intro acc x h; exact h
+  | cons tb tbs ih => intro acc x h; exact ih _ x (alGet_addEntry_some spec ksn acc tb x h)
+
+private theorem alGet_addEntries_none (spec : String × String) (ksn : String) (tbs : List String) :
+    ∀ (acc : List ((String × String) × Table)), alGet spec acc = none →
+      alGet spec (tbs.foldl (addEntry ksn) acc) =
+        if decide (ksn = spec.1) && tbs.contains spec.2 then some Table.empty else none := by
+  induction tbs with
+  | nil => intro acc h; simp [h]
+  | cons tb tbs ih =>
+    intro acc h
+    simp only [List.foldl_cons]
+    have h1 := alGet_addEntry_none spec ksn acc tb h
+    by_cases e : (ksn, tb) = spec
+    · rw [if_pos e] at h1
+      rw [alGet_addEntries_some spec ksn tbs _ _ h1]
+      subst e
+      simp
+    · rw [if_neg e] at h1
+      rw [ih _ h1]
+      obtain ⟨s1, s2⟩ := spec
+      by_cases e1 : ksn = s1
+      · subst e1
+        have : ¬ tb = s2 := fun e2 => e (by rw [e2])
+        have this' : ¬ s2 = tb := fun e2 => this e2.symm
+        simp [this']
+      · simp [e1]
+
+private def addedBy (kss : List (String × Bool × List String)) (spec : String × String) : Bool :=
+  kss.any (fun ks => ks.2.1 && (decide (ks.1 = spec.1) && ks.2.2.contains spec.2))
+
+private theorem alGet_addKs_some (spec : String × String) (kss : List (String × Bool × List String)) :
+    ∀ (acc : List ((String × String) × Table)) (x : Table), alGet spec acc = some x →
+      alGet spec (kss.foldl addKs acc) = some x := by
+  induction kss with
+  | nil => intro acc x h; exact h
+  | cons ks kss ih =>
+    intro acc x h
+    simp only [List.foldl_cons]
+    apply ih
+    unfold addKs
+    split
+    · exact alGet_addEntries_some spec ks.1 ks.2.2 acc x h
+    · exact h
+
+private theorem addedBy_cons (ks : String × Bool × List String) (kss : List (String × Bool × List String))
+    (spec : String × String) :
+    addedBy (ks :: kss) spec = ((ks.2.1 && (decide (ks.1 = spec.1) && ks.2.2.contains spec.2)) || addedBy kss spec) := by
+  simp [addedBy]
+
+private theorem alGet_addKs_none (spec : String × String) (kss : List (String × Bool × List String)) :
+    ∀ (acc : List ((String × String) × Table)), alGet spec acc = none →
+      alGet spec (kss.foldl addKs acc) = if addedBy kss spec then some Table.empty else none := by
+  induction kss with
+  | nil => intro acc h; simp [addedBy, h]
+  | cons ks kss ih =>
+    intro acc h
+    simp only [List.foldl_cons]
+    rw [addedBy_cons]
+    cases hk : ks.2.1
+    · have e1 : addKs acc ks = acc := by simp [addKs, hk]
+      rw [e1, ih _ h]
+      simp
+    · have e1 : addKs acc ks = ks.2.2.foldl (addEntry ks.1) acc := by simp [addKs, hk]
+      have h1 := alGet_addEntries_none spec ks.1 ks.2.2 acc h
+      rw [e1]
+      cases hc : (decide (ks.1 = spec.1) && ks.2.2.contains spec.2)
+      · rw [hc] at h1
+        simp only [Bool.false_eq_true, if_false] at h1
+        rw [ih _ h1]
+        simp
+      · rw [hc] at h1
+        simp only [if_true] at h1
+        rw [alGet_addKs_some spec kss _ _ h1]
+        simp
+
+private theorem addedBy_eq_keptBy (kss : List (String × Bool × List String)) (hnd : (kss.map (·.1)).Nodup)
+    (spec : String × String) : addedBy kss spec = keptBy kss spec := by
+  induction kss with
+  | nil => simp [addedBy, keptBy, alGet]
+  | cons ks kss ih =>
+    obtain ⟨kn, kb, kt⟩ := ks
+    simp only [List.map_cons, List.nodup_cons] at hnd
+    have ih' := ih hnd.2
+    by_cases e : kn = spec.1
+    · have hrest : addedBy kss spec = false := by
+        simp only [addedBy, List.any_eq_false, Bool.and_eq_true, decide_eq_true_eq, not_and]
+        intro x hx _ hx1
+        exfalso
+        apply hnd.1
+        rw [e, ← hx1]
+        exact List.mem_map.mpr ⟨x, hx, rfl⟩
+      rw [addedBy_cons, hrest]
+      simp [keptBy, alGet, e]
+    · rw [addedBy_cons, ih']
+      simp [keptBy, alGet, e]
+
+/-- by key: what `perform_maintenance` leaves under `spec` -/
+private theorem alGet_maintenance (inf : Info) (kss : List (String × Bool × List String))
+    (hnd : (kss.map (·.1)).Nodup) (rm : List Nat) (ns rc : List (Nat × Node)) (spec : String × String) :
+    alGet spec (inf.maintenance kss rm ns rc).tables =
+      if keptBy kss spec then
+        some (if !rm.isEmpty || !rc.isEmpty || inf.hasUnknown
+          then ((alGet spec inf.tables).getD Table.empty).maintenance rm ns rc
+          else (alGet spec inf.tables).getD Table.empty)
+      else none := by
+  rw [maintenance_unfold]
+  have hbase : alGet spec (kss.foldl addKs (inf.tables.filter (fun e => keptBy kss e.1))) =
+      if keptBy kss spec then some ((alGet spec inf.tables).getD Table.empty) else none := by
+    have hf := alGet_filter_key (fun k => keptBy kss k) spec inf.tables
+    cases hk : keptBy kss spec
+    · rw [hk] at hf
+      simp only [Bool.false_eq_true, if_false] at hf ⊢
+      rw [alGet_addKs_none spec kss _ hf, addedBy_eq_keptBy kss hnd, hk]
+      simp
+    · rw [hk] at hf
+      simp only [if_true] at hf ⊢
+      cases hg : alGet spec inf.tables with
+      | some x =>
+        rw [hg] at hf
+        rw [alGet_addKs_some spec kss _ x hf]; rfl
+      | none =>
+        rw [hg] at hf
+        rw [alGet_addKs_none spec kss _ hf, addedBy_eq_keptBy kss hnd, hk]
+        simp
+  simp only []
+  split
+  · have hmv := alGet_map_val (fun t : Table => t.maintenance rm ns rc) spec
+      (kss.foldl addKs (inf.tables.filter (fun e => keptBy kss e.1)))
+    rw [hmv, hbase]
+    cases keptBy kss spec <;> simp
+  · rw [hbase]
+
+/-- an operation on the tablet map as the table `spec` sees it: its own inserts, every maintenance step
+while it stays a table of a tablet keyspace; a maintenance step that drops the table starts it afresh -/
+def projStep (spec : String × String) (hist : List Op) : InfoOp → List Op
+  | .insert ks tb t => if (ks, tb) = spec then hist ++ [.insert t] else hist
+  | .maint kss rm ns rc => if keptBy kss spec then hist ++ [.maint rm ns rc] else []
+
+def proj (spec : String × String) (ops : List InfoOp) : List Op := ops.foldl (projStep spec) []
+
+def infoRun (ops : List InfoOp) : Info := ops.foldl infoStep Info.empty
+
+/-- learnt tablets are non-empty ranges; the keyspaces of a refresh have distinct names (a `HashMap`) -/
+def ValidInfoOps (ops : List InfoOp) : Prop :=
+  (∀ ks tb t, InfoOp.insert ks tb t ∈ ops → t.first ≤ t.last) ∧
+  (∀ kss rm ns rc, InfoOp.maint kss rm ns rc ∈ ops → (kss.map (·.1)).Nodup)
+
+private theorem addTablet_tablets_congr (a b : Table) (h : a.tablets = b.tablets) (t : Tablet) :
+    (a.addTablet t).1.tablets = (b.addTablet t).1.tablets := by
+  unfold Table.addTablet
+  rw [h]
+  cases addTabletList b.tablets t <;> rfl
+
+private theorem proj_valid (spec : String × String) (rops : List InfoOp)
+    (hv : ∀ ks tb t, InfoOp.insert ks tb t ∈ rops → t.first ≤ t.last) : ValidHist (proj spec rops.reverse) := by
+  induction rops with
+  | nil => intro t ht; simp [proj] at ht
+  | cons op rops ih =>
+    have ih' := ih (fun ks tb t hm => hv ks tb t (List.mem_cons_of_mem _ hm))
+    simp only [proj, List.reverse_cons, List.foldl_append, List.foldl_cons, List.foldl_nil]
+    cases op with
+    | insert ks tb t =>
+      simp only [projStep]
+      split
+      · intro u hu
+        rcases List.mem_append.mp hu with h | h
+        · exact ih' u h
+        · simp only [List.mem_singleton, Op.insert.injEq] at h
+          subst h; exact hv ks tb u List.mem_cons_self
+      · exact ih'
+    | maint kss rm ns rc =>
+      simp only [projStep]
+      split
+      · intro u hu
+        rcases List.mem_append.mp hu with h | h
+        · exact ih' u h
+        · simp at h
+      · intro u hu; cases hu
+
+private theorem main_projection (rops : List InfoOp) (hv : ValidInfoOps rops.reverse) :
+    FlagsHonest (infoRun rops.reverse) ∧
+    ∀ spec : String × String,
+      (alGet spec (infoRun rops.reverse).tables = none → proj spec rops.reverse = []) ∧
+      (∀ tbl, alGet spec (infoRun rops.reverse).tables = some tbl →
+        tbl.tablets = (run (proj spec rops.reverse)).tablets) := by
+  induction rops with
+  | nil =>
+    refine ⟨flags_honest_empty, fun spec => ⟨fun _ => rfl, ?_⟩⟩
+    intro tbl h; simp [infoRun, Info.empty, alGet] at h
+  | cons op rops ih =>
+    have hv' : ValidInfoOps rops.reverse := by
+      refine ⟨fun ks tb t hm => hv.1 ks tb t ?_, fun kss rm ns rc hm => hv.2 kss rm ns rc ?_⟩ <;>
+        simp only [List.reverse_cons, List.mem_append] <;> exact Or.inl hm
+    obtain ⟨hfl, ihs⟩ := ih hv'
+    have hrun : infoRun (op :: rops).reverse = infoStep (infoRun rops.reverse) op := by
+      simp [infoRun, List.foldl_append]
+    have hproj : ∀ spec, proj spec (op :: rops).reverse = projStep spec (proj spec rops.reverse) op := by
+      intro spec; simp [proj, List.foldl_append]
+    have hvh : ∀ spec, ValidHist (proj spec rops.reverse) := fun spec =>
+      proj_valid spec rops (fun ks tb t hm => hv'.1 ks tb t (List.mem_reverse.mpr hm))
+    rw [hrun]
+    cases op with
+    | insert ks tb t =>
+      have ht : t.first ≤ t.last := hv.1 ks tb t (by simp)
+      refine ⟨learn_keeps_flags_honest hfl (ks, tb) t, fun spec => ?_⟩
+      rw [hproj spec]
+      have htabs : (infoStep (infoRun rops.reverse) (.insert ks tb t)).tables =
+          alSet (ks, tb) (((alGet (ks, tb) (infoRun rops.reverse).tables).getD Table.empty).addTablet t).1
+            (infoRun rops.reverse).tables := rfl
+      rw [htabs, alGet_alSet]
+      by_cases e : spec = (ks, tb)
+      · subst e
+        simp only [if_true, projStep, reduceCtorEq, false_imp_iff, true_and, Option.some.injEq]
+        intro tbl htbl
+        subst htbl
+        rw [run_snoc]
+        simp only [step]
+        apply addTablet_tablets_congr
+        cases hg : alGet (ks, tb) (infoRun rops.reverse).tables with
+        | none =>
+          rw [(ihs (ks, tb)).1 hg]
+          rfl
+        | some c => exact (ihs (ks, tb)).2 c hg
+      · have e' : ¬ (ks, tb) = spec := fun x => e x.symm
+        simp only [e, if_false, projStep, e']
+        exact ihs spec
+    | maint kss rm ns rc =>
+      have hnd : (kss.map (·.1)).Nodup := hv.2 kss rm ns rc (by simp)
+      refine ⟨(refresh_resolves_all hfl kss rm ns rc).2, fun spec => ?_⟩
+      rw [hproj spec]
+      simp only [infoStep, projStep]
+      rw [alGet_maintenance _ kss hnd]
+      cases hk : keptBy kss spec
+      · simp
+      · simp only [if_true, reduceCtorEq, false_imp_iff, true_and, Option.some.injEq]
+        intro tbl htbl
+        subst htbl
+        rw [run_snoc]
+        simp only [step]
+        -- the table before the step, and the run of its history
+        have hcur : ((alGet spec (infoRun rops.reverse).tables).getD Table.empty).tablets
+            = (run (proj spec rops.reverse)).tablets ∧
+            FlagInv ((alGet spec (infoRun rops.reverse).tables).getD Table.empty) ∧
+            ((infoRun rops.reverse).hasUnknown = false →
+              AllResolved ((alGet spec (infoRun rops.reverse).tables).getD Table.empty)) := by
+          cases hg : alGet spec (infoRun rops.reverse).tables with
+          | none =>
+            rw [(ihs spec).1 hg]
+            exact ⟨rfl, flagInv_empty, fun _ t ht => by simp [Table.empty] at ht⟩
+          | some c =>
+            exact ⟨(ihs spec).2 c hg, hfl.tables _ (alGet_mem _ _ _ hg), fun hu => hfl.whole hu _ (alGet_mem _ _ _ hg)⟩
+        obtain ⟨htab, hflag, hres⟩ := hcur
+        have hflagr := flag_run _ (hvh spec)
+        have hR : ((run (proj spec rops.reverse)).maintenance rm ns rc).tablets
+            = (((alGet spec (infoRun rops.reverse).tables).getD Table.empty).maintenance rm ns rc).tablets := by
+          rw [(maintenance_eq_filterMap _ hflagr rm ns rc).1, (maintenance_eq_filterMap _ hflag rm ns rc).1, htab]
+        split
+        · exact hR.symm
+        · rename_i hgate
+          simp only [Bool.or_eq_true, Bool.not_eq_true', not_or, Bool.not_eq_false] at hgate
+          have hr : rm = [] := List.isEmpty_iff.mp (by simpa using hgate.1.1)
+          have hc : rc = [] := List.isEmpty_iff.mp (by simpa using hgate.1.2)
+          have hu : (infoRun rops.reverse).hasUnknown = false := by simpa using hgate.2
+          subst hr; subst hc
+          rw [hR, table_pass_noop _ (hres hu)]
+
+/-- **Projection**: after every sequence of learnt tablets and maintenance steps on the tablet map — tables
+dropped with their keyspace, empty entries created, the per-table pass skipped when the gate
+`removed ∨ recreated ∨ has_unknown_replicas` is closed — every table of the map holds exactly the tablets of the
+table-level run of its own valid sub-history.  Every table-level theorem therefore speaks about every table of
+the map (`info_lookup_refines`, `info_dc_restrict`), and the flags are honest. -/
+theorem info_projection (ops : List InfoOp) (hv : ValidInfoOps ops) (spec : String × String) (tbl : Table)
+    (h : alGet spec (infoRun ops).tables = some tbl) :
+    ValidHist (proj spec ops) ∧ tbl.tablets = (run (proj spec ops)).tablets ∧ FlagsHonest (infoRun ops) := by
+  have hm := main_projection ops.reverse (by rwa [List.reverse_reverse])
+  rw [List.reverse_reverse] at hm
+  have hval := proj_valid spec ops.reverse (fun ks tb t hmem => hv.1 ks tb t (List.mem_reverse.mp hmem))
+  rw [List.reverse_reverse] at hval
+  exact ⟨hval, (hm.2 spec).2 tbl h, hm.1⟩
+
+/-- latest-wins lookup, never stale — for every table of the tablet map -/
+theorem info_lookup_refines (ops : List InfoOp) (hv : ValidInfoOps ops) (spec : String × String) (tbl : Table)
+    (h : alGet spec (infoRun ops).tables = some tbl) (tok : Int) :
+    tabletForToken tbl.tablets tok = lookupSpec (proj spec ops) tok ∧ Inv tbl.tablets := by
+  obtain ⟨hvh, htab, _⟩ := info_projection ops hv spec tbl h
+  rw [htab]
+  exact ⟨lookup_refines _ hvh tok, inv_run _ hvh⟩
+
+/-- per-datacenter replicas are the restriction of the full list — for every table of the tablet map -/
+theorem info_dc_restrict (ops : List InfoOp) (hv : ValidInfoOps ops)
+    (hdc : ∀ ks tb t, InfoOp.insert ks tb t ∈ ops → DcOk t)
+    (spec : String × String) (tbl : Table) (h : alGet spec (infoRun ops).tables = some tbl) (tok : Int) (dc : String) :
+    dcReplicasForToken tbl.tablets tok dc =
+      (replicasForToken tbl.tablets tok).map (fun all => all.filter (fun p => decide (p.1.dc = some dc))) := by
+  obtain ⟨hvh, htab, _⟩ := info_projection ops hv spec tbl h
+  rw [htab]
+  apply dc_restrict _ hvh
+  -- every insert of the projection is an insert of the map's history
+  have key : ∀ rops : List InfoOp, (∀ ks tb t, InfoOp.insert ks tb t ∈ rops → DcOk t) →
+      ∀ t, Op.insert t ∈ proj spec rops.reverse → DcOk t := by
+    intro rops
+    induction rops with
+    | nil => intro _ t ht; simp [proj] at ht
+    | cons op rops ih =>
+      intro hd t ht
+      have ih' := ih (fun ks tb t hm => hd ks tb t (List.mem_cons_of_mem _ hm))
+      simp only [proj, List.reverse_cons, List.foldl_append, List.foldl_cons, List.foldl_nil] at ht
+      cases op with
+      | insert ks tb u =>
+        simp only [projStep] at ht
+        split at ht
+        · rcases List.mem_append.mp ht with hx | hx
+          · exact ih' t hx
+          · simp only [List.mem_singleton, Op.insert.injEq] at hx
+            subst hx; exact hd ks tb t List.mem_cons_self
+        · exact ih' t ht
+      | maint kss rm ns rc =>
+        simp only [projStep] at ht
+        split at ht
+        · rcases List.mem_append.mp ht with hx | hx
+          · exact ih' t hx
+          · simp at hx
+        · cases ht
+  have := key ops.reverse (fun ks tb t hm => hdc ks tb t (List.mem_reverse.mp hm))
+  rwa [List.reverse_reverse] at this
+
+/-! the cluster state's tablet map is the `TabletsInfo` run of the operations the refreshes compute -/
+
+/-- the `TabletsInfo` operation a cluster-state operation amounts to, in the state it is applied to -/
+def infoOpOf (cs : CState) : COp → InfoOp
+  | .learn ks tb f l raw => .insert ks tb (Tablet.fromRaw f l raw (translator cs.known))
+  | .refresh peers kss =>
+    .maint kss (removedNodes cs.known (newTopology cs.known cs.gen peers).1)
+      (nodesOf (newTopology cs.known cs.gen peers).1) (recreatedNodes cs.known (newTopology cs.known cs.gen peers).1)
+
+def ctrace : List COp → CState → List InfoOp
+  | [], _ => []
+  | op :: ops, cs => infoOpOf cs op :: ctrace ops (cstep cs op)
+
+theorem crun_info (ops : List COp) : (crun ops).info = infoRun (ctrace ops CState.init) := by
+  have key : ∀ (ops : List COp) (cs : CState) (pre : List InfoOp), cs.info = infoRun pre →
+      (ops.foldl cstep cs).info = infoRun (pre ++ ctrace ops cs) := by
+    intro ops
+    induction ops with
+    | nil => intro cs pre h; simpa [ctrace] using h
+    | cons op ops ih =>
+      intro cs pre h
+      simp only [List.foldl_cons, ctrace]
+      have := ih (cstep cs op) (pre ++ [infoOpOf cs op]) (by
+        simp only [infoRun, List.foldl_append, List.foldl_cons, List.foldl_nil]
+        rw [← infoRun, ← h]
+        cases op <;> rfl)
+      simpa [List.append_assoc] using this
+  have := key ops CState.init [] rfl
+  simpa [crun] using this
+
+/-- **The cluster level**: every table of the cluster state's tablet map, after any history of learnt tablets
+(non-empty ranges) and metadata refreshes (distinct keyspace names), answers lookups latest-wins and never stale,
+as the table-level specification of its own sub-history says. -/
+theorem cluster_lookup_refines (ops : List COp)
+    (hv1 : ∀ ks tb f l raw, COp.learn ks tb f l raw ∈ ops → f ≤ l)
+    (hv2 : ∀ peers kss, COp.refresh peers kss ∈ ops → (kss.map (·.1)).Nodup)
+    (spec : String × String) (tbl : Table) (h : alGet spec (crun ops).info.tables = some tbl) (tok : Int) :
+    tabletForToken tbl.tablets tok = lookupSpec (proj spec (ctrace ops CState.init)) tok ∧ Inv tbl.tablets := by
+  rw [crun_info] at h
+  refine info_lookup_refines _ ?_ spec tbl h tok
+  have key : ∀ (ops : List COp) (cs : CState),
+      (∀ ks tb f l raw, COp.learn ks tb f l raw ∈ ops → f ≤ l) →
+      (∀ peers kss, COp.refresh peers kss ∈ ops → (kss.map (·.1)).Nodup) → ValidInfoOps (ctrace ops cs) := by
+    intro ops
+    induction ops with
+    | nil =>
+      intro cs _ _
+      constructor
+      · intro ks tb t hm; simp [ctrace] at hm
+      · intro kss rm ns rc hm; simp [ctrace] at hm
+    | cons op ops ih =>
+      intro cs h1 h2
+      obtain ⟨i1, i2⟩ := ih (cstep cs op) (fun ks tb f l raw hm => h1 ks tb f l raw (List.mem_cons_of_mem _ hm))
+        (fun peers kss hm => h2 peers kss (List.mem_cons_of_mem _ hm))
+      constructor
+      · intro ks tb t hm
+        simp only [ctrace] at hm
+        rcases List.mem_cons.mp hm with e | hm
+        · cases op with
+          | learn ks' tb' f l raw =>
+            simp only [infoOpOf, InfoOp.insert.injEq] at e
+            obtain ⟨_, _, rfl⟩ := e
+            exact h1 ks' tb' f l raw List.mem_cons_self
+          | refresh peers kss => simp [infoOpOf] at e
+        · exact i1 ks tb t hm
+      · intro kss rm ns rc hm
+        simp only [ctrace] at hm
+        rcases List.mem_cons.mp hm with e | hm
+        · cases op with
+          | learn ks' tb' f l raw => simp [infoOpOf] at e
+          | refresh peers kss' =>
+            simp only [infoOpOf, InfoOp.maint.injEq] at e
+            obtain ⟨rfl, _⟩ := e
+            exact h2 peers kss List.mem_cons_self
+        · exact i2 kss rm ns rc hm
+  exact key ops CState.init hv1 hv2
+
+end Lift
+
+/-! ### the specification in flat form: latest wins -/
+
+/-- what one later operation does to a learnt tablet: an overlapping insert kills it, maintenance keeps
+(and transforms) or discards it -/
+def survStep (op : Op) (t : Tablet) : Option Tablet :=
+  match op with
+  | .insert u => if overlaps t u then none else some t
+  | .maint rm ns rc => maintTablet rm ns rc t
+
+def survive (t : Tablet) (later : List Op) : Option Tablet :=
+  later.foldl (fun o op => o.bind (survStep op)) (some t)
+
+/-- **Latest wins, positively**: if `insert t` occurs in the history, `t` covers the token, no later insert
+overlaps it and every later maintenance step keeps it (`survive t later = some t'`, `t'` = `t` as maintained),
+then the specification — hence, by `lookup_refines`, the lookup — answers `t'`. -/
+theorem lookupSpec_latest_wins (older later : List Op) (t t' : Tablet) (tok : Int) (hc : covers tok t = true)
+    (hs : survive t later = some t') : lookupSpec (older ++ .insert t :: later) tok = some t' := by
+  have key : ∀ (rl : List Op) (t' : Tablet), survive t rl.reverse = some t' →
+      (t'.first = t.first ∧ t'.last = t.last) ∧ lookupSpecRev (rl ++ .insert t :: older.reverse) tok = some t' := by
+    intro rl
+    induction rl with
+    | nil =>
+      intro t' h
+      simp only [survive, List.reverse_nil, List.foldl_nil, Option.some.injEq] at h
+      subst h
+      exact ⟨⟨rfl, rfl⟩, by simp [lookupSpecRev, hc]⟩
+    | cons op rl ih =>
+      intro t' h
+      simp only [survive, List.reverse_cons, List.foldl_append, List.foldl_cons, List.foldl_nil,
+        Option.bind_eq_some_iff] at h
+      obtain ⟨t1, h1, h2⟩ := h
+      obtain ⟨hr, hl⟩ := ih t1 h1
+      cases op with
+      | insert u =>
+        simp only [survStep] at h2
+        split at h2
+        · cases h2
+        · rename_i hno
+          simp only [Option.some.injEq] at h2
+          subst h2
+          refine ⟨hr, ?_⟩
+          have hcu : covers tok u = false := by
+            cases hx : covers tok u
+            · rfl
+            · exfalso
+              apply hno
+              simp only [covers, Bool.and_eq_true, decide_eq_true_eq] at hc hx
+              simp only [overlaps, Bool.and_eq_true, decide_eq_true_eq]
+              omega
+          have hno' : overlaps t1 u = false := by simpa using hno
+          simp [lookupSpecRev, hcu, hl, hno']
+      | maint rm ns rc =>
+        simp only [survStep] at h2
+        have := maintTablet_range h2
+        refine ⟨⟨by omega, by omega⟩, ?_⟩
+        simp [lookupSpecRev, hl, h2]
+  have := (key later.reverse t' (by rwa [List.reverse_reverse])).2
+  simpa [lookupSpec] using this
+
+/-- the same for the implementation's lookup -/
+theorem lookup_latest_wins (older later : List Op) (t t' : Tablet) (tok : Int)
+    (hv : ValidHist (older ++ .insert t :: later)) (hc : covers tok t = true) (hs : survive t later = some t') :
+    tabletForToken (run (older ++ .insert t :: later)).tablets tok = some t' := by
+  rw [lookup_refines _ hv]
+  exact lookupSpec_latest_wins older later t t' tok hc hs
+
+example : survive (tr 4 6 [1]) [.insert (tr 7 8 [2]), .maint [2] [(1, nd 1)] []] = some (tr 4 6 [1]) ∧
+    survive (tr 6 9 [2]) [.insert (tr 4 6 [1])] = none := by decide
 
 end ScyllaVerif.Props.C15
